@@ -118,6 +118,17 @@ def arms_to_coq(arms, resolve, what):
     return "[" + "; ".join(out) + "]"
 
 
+def name_runs(names):
+    """the run number a table documents in its name: PADWING_BOARDS_4418 -> 4418 ("as installed in run X (included)")"""
+    out = []
+    for n in names:
+        m = re.search(r"_(\d+)$", n)
+        if not m:
+            raise GenError("table %s does not name its first run" % n)
+        out.append(int(m.group(1)))
+    return coq_nlist(out)
+
+
 def index_resolver(names, lazy, what):
     def resolve(body):
         b = body.strip()
@@ -163,7 +174,10 @@ def gen_wire_maps():
     t += "Definition preamp_tables : list (list (list N * (N * N))) := [%s].\n" % "; ".join(n.lower() for n in pnames)
     t += "Definition channel_tables : list (list N) := [%s].\n" % "; ".join(n.lower() for n in cnames)
     t += "Definition preamp_table_names : list (list N) := [%s].\n" % "; ".join(coq_str(n) for n in pnames)
-    t += "Definition channel_table_names : list (list N) := [%s].\n\n" % "; ".join(coq_str(n) for n in cnames)
+    t += "Definition channel_table_names : list (list N) := [%s].\n" % "; ".join(coq_str(n) for n in cnames)
+    t += "(* first run each table documents in its name *)\n"
+    t += "Definition preamp_table_runs : list N := %s.\nDefinition channel_table_runs : list N := %s.\n\n" % (
+        name_runs(pnames), name_runs(cnames))
 
     lazy = lazy_refs(src, "preamps_map")
     body = norm(fn_body(src, "fn preamps_map"))
@@ -325,7 +339,8 @@ def gen_pad_maps():
         t += "Definition %s : list (list (list N)) :=\n  [" % n.lower() + ";\n   ".join(
             "[" + "; ".join(coq_str(x) for x in c) + "]" for c in cols) + "].\n"
     t += "\nDefinition pwb_tables : list (list (list (list N))) := [%s].\n" % "; ".join(n.lower() for n in bnames)
-    t += "Definition pwb_table_names : list (list N) := [%s].\n\n" % "; ".join(coq_str(n) for n in bnames)
+    t += "Definition pwb_table_names : list (list N) := [%s].\n" % "; ".join(coq_str(n) for n in bnames)
+    t += "(* first run each table documents in its name *)\nDefinition pwb_table_runs : list N := %s.\n\n" % name_runs(bnames)
     lazy = lazy_refs(src, "inverse_pwb_map")
     body = norm(fn_body(src, "fn inverse_pwb_map"))
     want = ("let mut inverse = HashMap::new(); for (column, row) in map.iter().enumerate() { for (row, name) in "
